@@ -14,7 +14,7 @@ PLAN = {
     "C10": ["L10"],
     "C17": ["K17", "K17b", "K17c", "L17"],
     "C18": ["K18a", "K18b", "L18"],
-    "C19": ["K19b", "L19"],
+    "C19": ["K19b", "K19c", "L19"],
     "C11": ["K11a", "K11b", "L11"],
     "C12": ["K12a", "K12b", "K12d", "K12e"],
     "C13": ["K12a", "K13a", "K13b", "K13c", "K14b"],
